@@ -28,6 +28,7 @@
 (* secondary or default) x Reply!Cells x Reply!Bodies(level).              *)
 (* Variant "as_is" mirrors the code; "fixed" satisfies the whole property  *)
 (* (INVARIANT Property); "sig201" / "hdl201" prefer 201 over 200 in one    *)
+(* ("sigsorted": lowest instead of first-declared other 2xx)               *)
 (* selection copy only (INVARIANT SelectionsAgree must then fail).         *)
 (***************************************************************************)
 EXTENDS Reply, Json
@@ -36,58 +37,63 @@ CONSTANTS MaxDecl, Level, Variant, Emit
 
 VARIABLES sc,       \* the scenario [served, cell, others, sib]
           body,     \* what the server sends
-          stage, sig, hdl, branch, outcome
-vars == <<sc, body, stage, sig, hdl, branch, outcome>>
+          stage, sig, hdl, branch, outcome,
+          acts      \* the actions taken so far (recorded: Judge reports them, the harness refuses a run in which an
+                    \* action never fired - TLC's -coverage costs three times the run)
+vars == <<sc, body, stage, sig, hdl, branch, outcome, acts>>
 
 ASSUME Variant \in Variants /\ MaxDecl \in 1..3 /\ Level \in 1..2
 
 D == Decl(sc)
+DS == DocSeq(sc)
 Unset == "-"
 
 Init ==
   /\ sc \in {s \in Scenarios(MaxDecl) : WellFormedScenario(s)}
   /\ body \in Bodies(sc.cell.c, sc.cell.sh, Level)
-  /\ stage = "generate" /\ sig = Unset /\ hdl = Unset /\ branch = Unset /\ outcome = NoOutcome
+  /\ stage = "generate" /\ sig = Unset /\ hdl = Unset /\ branch = Unset /\ outcome = NoOutcome /\ acts = {}
 
 \* response_strategy.py:113 - decides the annotation and the strategy
 SelectSignature ==
   /\ stage = "generate" /\ sig = Unset
-  /\ sig' = PrimarySig(Variant, D)
+  /\ sig' = PrimarySig(Variant, D, DS)
   /\ stage' = IF hdl # Unset THEN "match" ELSE stage
+  /\ acts' = acts \cup {"SelectSignature"}
   /\ UNCHANGED <<sc, body, hdl, branch, outcome>>
 
 \* endpoint_utils.py:139 - decides which `case` is "the primary one"
 SelectHandler ==
   /\ stage = "generate" /\ hdl = Unset
-  /\ hdl' = PrimaryHdl(Variant, D)
+  /\ hdl' = PrimaryHdl(Variant, D, DS)
   /\ stage' = IF sig # Unset THEN "match" ELSE stage
+  /\ acts' = acts \cup {"SelectHandler"}
   /\ UNCHANGED <<sc, body, sig, branch, outcome>>
 
 Strat == IF Variant = "fixed" THEN FixedStrategy(D[sc.served]) ELSE Strategy(D[sig])
 
-Go(b) == branch' = b /\ stage' = "extract" /\ UNCHANGED <<sc, body, sig, hdl, outcome>>
-Finish(o) == outcome' = o /\ stage' = "done" /\ UNCHANGED <<sc, body, sig, hdl, branch>>
+Go(a, b) == branch' = b /\ stage' = "extract" /\ acts' = acts \cup {a} /\ UNCHANGED <<sc, body, sig, hdl, outcome>>
+Finish(a, o) == outcome' = o /\ stage' = "done" /\ acts' = acts \cup {a} /\ UNCHANGED <<sc, body, sig, hdl, branch>>
 
 \* the emitted endpoint module is not valid Python: nothing can be called
 LoadFails ==
-  /\ stage = "match" /\ Unimportable(Variant, D)
-  /\ Finish(Raised("SyntaxError"))
+  /\ stage = "match" /\ Unimportable(Variant, D, DS)
+  /\ Finish("LoadFails", Raised("SyntaxError"))
 
-Loaded == stage = "match" /\ ~Unimportable(Variant, D)
-Imp == CattrsImported(Variant, D, sc.sib)
+Loaded == stage = "match" /\ ~Unimportable(Variant, D, DS)
+Imp == CattrsImported(Variant, D, DS, sc.sib)
 
 \* `case <primary>:` - the strategy-based return
 CasePrimary ==
   /\ Loaded /\ (Variant = "fixed" \/ (sc.served = hdl /\ hdl # "default"))
-  /\ Go("strategy")
+  /\ Go("CasePrimary", "strategy")
 \* `case <other 2xx>:` - resolved per response, always through response.json()
 CaseSecondary ==
   /\ Loaded /\ Variant # "fixed" /\ sc.served # hdl /\ sc.served # "default"
-  /\ Go("secondary")
+  /\ Go("CaseSecondary", "secondary")
 \* `case _:  # Default response`
 CaseDefault ==
   /\ Loaded /\ Variant # "fixed" /\ sc.served = "default"
-  /\ Go("default")
+  /\ Go("CaseDefault", "default")
 
 \* the strategy a branch extracts with
 BranchStrategy ==
@@ -95,33 +101,34 @@ BranchStrategy ==
   ELSE Strat
 DefaultRaises == branch = "default" /\ (D["default"].c = "none" \/ Strat.k = "none")
 
-Extract(kinds, o) ==
+Extract(a, kinds, o) ==
   /\ stage = "extract" /\ ~DefaultRaises
   /\ BranchStrategy.k \in kinds
-  /\ Finish(o)
+  /\ Finish(a, o)
 
-ReturnNone        == stage = "extract" /\ Extract({"none"}, Returned("none", NoTree))
-StreamBytes       == stage = "extract" /\ Extract({"aiter_bytes"}, IterBytes(body))
-StreamSseJson     == stage = "extract" /\ Extract({"aiter_json"}, IterSseJson(body))
-ContentTypeSwitch == stage = "extract" /\ Extract({"switch"}, StrategyReturn(Imp, BranchStrategy, body))
+ReturnNone        == stage = "extract" /\ Extract("ReturnNone", {"none"}, Returned("none", JNull))
+StreamBytes       == stage = "extract" /\ Extract("StreamBytes", {"aiter_bytes"}, IterBytes(body))
+StreamSseJson     == stage = "extract" /\ Extract("StreamSseJson", {"aiter_json"}, IterSseJson(body))
+ContentTypeSwitch == stage = "extract" /\ Extract("ContentTypeSwitch", {"switch"}, StrategyReturn(Imp, BranchStrategy, body))
 \* (each action starts with its own stage guard so that TLC's coverage keeps the action's name)
 StructureJson     == /\ stage = "extract" /\ UsesCattrs(BranchStrategy.ty)
-                     /\ Extract({"type"}, FromJson(Imp, BranchStrategy.ty, body))
+                     /\ Extract("StructureJson", {"type"}, FromJson(Imp, BranchStrategy.ty, body))
 CastJson          == /\ stage = "extract" /\ ~UsesCattrs(BranchStrategy.ty)
-                     /\ Extract({"type"}, FromJson(Imp, BranchStrategy.ty, body))
-ReturnText        == stage = "extract" /\ Extract({"text"}, Returned("str", ServedText(body)))
-StreamRecords     == stage = "extract" /\ Extract({"aiter_records"}, IterRecords(BranchStrategy.ty, body))
-RaiseDefault      == stage = "extract" /\ DefaultRaises /\ Finish(Raised("HTTPError"))
+                     /\ Extract("CastJson", {"type"}, FromJson(Imp, BranchStrategy.ty, body))
+ReturnText        == stage = "extract" /\ Extract("ReturnText", {"text"}, Returned("str", ServedText(body)))
+StreamRecords     == stage = "extract" /\ Extract("StreamRecords", {"aiter_records"}, IterRecords(BranchStrategy.ty, body))
+RaiseDefault      == stage = "extract" /\ DefaultRaises /\ Finish("RaiseDefault", Raised("HTTPError"))
 
-TheCtx == Ctx(RoleOf(D, sc.served), sc.cell.c, sc.cell.sh, "method")
-TheAnn == Ann(Variant, D)
+TheCtx == Ctx(RoleOf(D, DS, sc.served), sc.cell.c, sc.cell.sh, "method")
+TheAnn == Ann(Variant, D, DS)
 
 Judge ==
   /\ stage = "done"
-  /\ stage' = "judged" /\ UNCHANGED <<sc, body, sig, hdl, branch, outcome>>
+  /\ stage' = "judged" /\ acts' = acts \cup {"Judge"} /\ UNCHANGED <<sc, body, sig, hdl, branch, outcome>>
+  /\ PrintT("ACTS " \o ToJson(SetToSeq(acts)))
   /\ LET fs == Failures(TheCtx, body, TheAnn, outcome)
      IN  (Emit /\ fs # {}) =>
-           PrintT("DESIGN " \o ToJson([sib |-> sc.sib, served |-> sc.served, others |-> SetToSeq(sc.others), c |-> sc.cell.c, sh |-> sc.cell.sh,
+           PrintT("DESIGN " \o ToJson([sib |-> sc.sib, order |-> DS, served |-> sc.served, others |-> SetToSeq(sc.others), c |-> sc.cell.c, sh |-> sc.cell.sh,
                                        ct |-> body.ct, var |-> body.var, kind |-> outcome.kind, fails |-> SetToSeq(fs)]))
 
 Next == \/ SelectSignature \/ SelectHandler \/ LoadFails
@@ -144,12 +151,12 @@ TypeOK ==
   /\ (Finished <=> outcome.kind # "none")
 
 \* the machine's actions compose to the constant-level function the trace monitor compares the real code with
-MachineIsModel == Finished => outcome = ModelOutcome(Variant, D, sc.sib, sc.served, body)
+MachineIsModel == Finished => outcome = ModelOutcome(Variant, D, DS, sc.sib, sc.served, body)
 
 \* both copies of the selection logic pick the same response (signature and handler agree)
 SelectionsAgree == (sig # Unset /\ hdl # Unset) => sig = hdl
 \* ... and it is the response the documented priority names
-SelectionIsDocumented == (sig # Unset) => sig = PrimaryBy(DocOrder, D)
+SelectionIsDocumented == (sig # Unset) => sig = PrimaryBy(DocOrder, D, DS)
 
 \* the judge and the property as stated are the same predicate
 JudgeAgrees == Finished => (Holds(TheCtx, body, TheAnn, outcome) <=> Failures(TheCtx, body, TheAnn, outcome) = {})
